@@ -53,11 +53,49 @@ def _nodes(fn: FunctionInfo, node: ast.AST) -> list[CNode]:
     return node_index(fn).get(id(node), [])
 
 
+_CONTEXT: dict = {}  # set by check_protocol: the program, the function under analysis and its finite-domain discriminators
+
+
+def _helper_places(call: ast.Call, var: str) -> bool:
+    """`self._helper(..., var, ...)`: a private method of the same class that attaches the parameter `var` is bound to on every normal path
+    (finite-domain discriminators of the caller are carried over to the parameters they are passed as)."""
+    prog, fn, domains = _CONTEXT.get("prog"), _CONTEXT.get("fn"), _CONTEXT.get("domains") or {}
+    if prog is None or fn is None or fn.cls is None or not (isinstance(call.func, ast.Attribute) and unparse(call.func.value) == "self"):
+        return False
+    if not call.func.attr.startswith("_") or _CONTEXT.get("depth", 0) > 1:
+        return False
+    hs = prog.lookup_method(fn.cls, call.func.attr)
+    if len(hs) != 1 or any(isinstance(a, ast.Starred) for a in call.args) or any(k.arg is None for k in call.keywords):
+        return False
+    h = hs[0]
+    a = h.node.args
+    pos = [x.arg for x in (*a.posonlyargs, *a.args)][1:]
+    bound = dict(zip(pos, call.args))
+    bound.update({k.arg: k.value for k in call.keywords})
+    params = [p for p, v in bound.items() if unparse(v) == var]
+    if len(params) != 1:
+        return False
+    hdom = {p: set(domains[unparse(v)]) for p, v in bound.items() if unparse(v) in domains}
+    from sa.util import cfg_of as _cfg_of
+
+    hcfg = _cfg_of(h)
+    saved = dict(_CONTEXT)
+    _CONTEXT.update(fn=h, domains=hdom, depth=_CONTEXT.get("depth", 0) + 1)
+    try:
+        leak = hcfg.reach([hcfg.entry], avoid=lambda x: is_placement(x, params[0]), avoid_edge=enum_infeasible(hcfg, hdom), normal_only=True)
+    finally:
+        _CONTEXT.clear()
+        _CONTEXT.update(saved)
+    return hcfg.exit not in leak
+
+
 def is_placement(stmt_node: CNode, var: str) -> bool:
     s = stmt_node.stmt
     if stmt_node.kind != "stmt" or s is None:
         return False
     for n in walk_no_nested(s, include_self=True):
+        if isinstance(n, ast.Call) and _helper_places(n, var):
+            return True
         if isinstance(n, ast.Call) and isinstance(n.func, ast.Attribute):
             if n.func.attr in ("set_member", "__setitem__") and len(n.args) >= 2 and unparse(n.args[1]) == var:
                 return True
@@ -96,6 +134,8 @@ def check_protocol(prog: Program, ctx: Ctx, rule: str, fn: FunctionInfo, *, recu
     cfg = cfg_of(fn)
     enum_inf = enum_infeasible(cfg, domains or {})
     current: dict[str, str] = {}
+    _CONTEXT.clear()
+    _CONTEXT.update(prog=prog, fn=fn, domains=domains or {})
 
     def infeasible(a: CNode, b: CNode, label: str) -> bool:
         """Edges impossible for the object under analysis: finite-domain discriminators, and `var.is_<kind>` tests on a variable whose class is known."""
